@@ -409,7 +409,7 @@ def gen_stack_cases(rng, tier, scale):
             for style in ('valid', 'near'):
                 for _ in range(reps * scale):
                     cases.append(gen_stack_case(rng, names, style, is_async, tier))
-    n_rand = (500 if tier == 'quick' else 9000) * scale
+    n_rand = (1300 if tier == 'quick' else 12000) * scale
     for _ in range(n_rand):
         h = rng.choice([1, 2, 2, 3, 3, 4])
         names = [rng.choice(FULL) for _ in range(h)]
@@ -461,6 +461,13 @@ def reaches(names, i):
     return all(d in PASS or d == 'rename_kwargs' for d in names[:i])
 
 
+STATS = {}
+
+
+def stat(k):
+    STATS[k] = STATS.get(k, 0) + 1
+
+
 def judge_stack(c, impl, out):
     """-> (correspondence problems, property problems)"""
     corr, prop = [], []
@@ -482,6 +489,7 @@ def judge_stack(c, impl, out):
         if dec.get('deco_error') != want:
             prop.append(f'decoration raises {dec.get("deco_error_repr", "nothing")}, the statement demands '
                         f'{"PedanticOverrideException" if want else "no exception"} (overrides raises iff the base class lacks the name)')
+        stat('decoration-time outcomes (overrides)')
         return corr, prop
     sigs = {0: (c['sig'], 80), 1: ((c.get('other') or NO_OTHER)['sig'], 60)}
     ij = canon_impl_journal(dec['journal'])
@@ -506,6 +514,7 @@ def judge_stack(c, impl, out):
     if not meta['twin_iscoro'] and meta['iscoro'] and all(d in FULL for d in names):
         prop.append('a plain function became a coroutine function')
     if 'no_claim' not in s:
+        stat('stack cases judged against the Coq spec (spec_ok)')
         sj = canon_model_journal(s['journal'], sigs)
         if dec['results'] != s['results']:
             k = next(i for i, (x, y) in enumerate(zip(dec['results'], s['results'])) if x != y)
@@ -515,6 +524,7 @@ def judge_stack(c, impl, out):
                         f'{json.dumps(strip_stamps(sj))[:300]} (callee 0 = decorated function, 1 = other_func; bound arguments by identity)')
     # relational: decorated vs twin, when every level is transparent on every call of the history
     if transparent_history(c):
+        stat('stack cases judged decorated-vs-twin (every level transparent on every call)')
         if dec['results'] != twin['results']:
             k = next(i for i, (x, y) in enumerate(zip(dec['results'], twin['results'])) if x != y)
             prop.append(f'call {k}: decorated gives {describe(dec["results"][k])}, the undecorated twin {describe(twin["results"][k])}')
@@ -522,10 +532,13 @@ def judge_stack(c, impl, out):
             prop.append(f'decorated runs the body as {json.dumps(strip_stamps(ij))[:300]}, the twin as '
                         f'{json.dumps(strip_stamps(canon_impl_journal(twin["journal"])))[:300]}')
     for i, d in enumerate(names):
+        if d == 'count_calls' and reaches(names, i):
+            stat('count_calls histories checked against 1..n')
         if d == 'count_calls' and reaches(names, i) and dec['counts'] != list(range(1, len(c['calls']) + 1)):
             prop.append(f'count_calls: num_calls after each call is {dec["counts"]}, expected 1..{len(c["calls"])}')
     ndep = [i for i, d in enumerate(names) if d == 'deprecated']
     if ndep and all(reaches(names, i) for i in ndep):
+        stat('deprecated histories checked for one warning per call')
         got = dec['events'].count(2)
         if got != len(ndep) * len(c['calls']):
             prop.append(f'deprecated: {got} DeprecationWarnings for {len(c["calls"])} calls of {len(ndep)} deprecated level(s), '
@@ -758,7 +771,7 @@ def run(tier, seed, replay=None):
         ck.oblige(f'correspondence:{name}:{st}', 'correspondence', not ds,
                   json.dumps(ds[0], default=str)[:1800] if ds else f'{streams.get(st, 0)} cases agree')
     floor = {'valid': 0.3, 'near': 0.3}
-    ck.coverage.update({'streams': streams, 'histogram': hist, 'disagreements': len(disagreements),
+    ck.coverage.update({'streams': streams, 'histogram': hist, 'property_checks': dict(STATS), 'disagreements': len(disagreements),
                         'property_failures_incl_known': len(found)})
     idx = [0, len(cases) // 2, len(cases) - 1] if cases else []
     ck.samples = [{'case': cases[k], 'impl': results[k][2], 'model': results[k][3]} for k in idx]
